@@ -61,6 +61,12 @@ def units(tier, seed):
         u.append(dict(dup=d))
     for nfr in (2, 3):
         pats = [p for p in itertools.product(itertools.product((0, 1), repeat=nfr), repeat=3) if sum(map(sum, p)) >= nfr + 1]
+        for fr_ in ("base_link", "map"):
+            for neg in (False, True):
+                # small heading steps (quaternions of consecutive frames nearly equal up to sign)
+                u.append(dict(nfr=nfr, frame=fr_, neg=neg, smallstep=True, pats=[list(map(list, p)) for p in pats[(1 if neg else 0)::3]]))
+            # objects that carry their past poses (what the loader produces for the tracking task)
+            u.append(dict(nfr=nfr, frame=fr_, neg=False, paths=True, pats=[list(map(list, p)) for p in pats[2::3]]))
         for mix in (0, 1):
             u.append(dict(nfr=nfr, frame="mixed", neg=False, mix=mix, pats=[list(map(list, p)) for p in pats[mix::4]]))
     return u
@@ -84,14 +90,20 @@ def run_unit(unit, acc):
         check_case(dict(dup=unit["dup"], queries=[-60000, 0, 20000, 50000, 60000, 100000, 130000, 175000, 200000, 230000, 250000, 300000], tols=TOLS), acc)
         return
     for pat in unit["pats"]:
-        check_case(dict(nfr=unit["nfr"], frame=unit["frame"], neg=unit["neg"], pres=pat, queries=queries(_SEED[0], unit["nfr"]), tols=TOLS, far=bool(unit.get("far")), relabel=bool(unit.get("relabel")), mix=unit.get("mix", 0)), acc)
+        check_case(dict(nfr=unit["nfr"], frame=unit["frame"], neg=unit["neg"], pres=pat, queries=queries(_SEED[0], unit["nfr"]), tols=TOLS, far=bool(unit.get("far")), relabel=bool(unit.get("relabel")), mix=unit.get("mix", 0), smallstep=bool(unit.get("smallstep")),
+                        paths=bool(unit.get("paths"))), acc)
 
 
 FAR = (-400000.0, 300000.0)   # UTM-scale global coordinates
 
 
+SMALL = {"A": [3.13, -3.13, 3.135, -3.139], "B": [-1.5708, -1.58, -1.56, -1.5709], "C": [-3.12, 3.138, -3.135, 3.12]}
+
+
 def _P(u, k, case=None):
     x, y, yaw = POSE[u][k]
+    if case is not None and case.get("smallstep"):   # headings that change by 1-2 degrees per frame, across +-pi (A, C) / near -pi/2 (B)
+        yaw = SMALL[u][k]
     if case is not None and case.get("far"):
         return (x + FAR[0], y + FAR[1], yaw)
     return (x, y, yaw)
@@ -141,7 +153,21 @@ def _frames(case):
     nfr = case["nfr"]
     out = []
     for k in range(nfr):
-        if case["frame"] == "mixed":   # one frame holding ego-frame and map-frame objects side by side
+        if case.get("paths"):
+            objs = []
+            for ui, u in enumerate("ABC"):
+                if not case["pres"][ui][k]:
+                    continue
+                o = _obj(u, k, case["frame"], False, case)
+                past = [_obj(u, j, case["frame"], False, case) for j in range(k) if case["pres"][ui][j]]
+                if past:
+                    from perception_eval.common.object import DynamicObject
+                    o = DynamicObject(o.unix_time, o.frame_id, o.state.position, o.state.orientation, o.state.shape, o.state.velocity, o.semantic_score, o.semantic_label,
+                                      pointcloud_num=o.pointcloud_num, uuid=o.uuid, tracked_positions=[q_.state.position for q_ in past],
+                                      tracked_orientations=[q_.state.orientation for q_ in past], tracked_shapes=[q_.state.shape for q_ in past],
+                                      tracked_twists=[q_.state.velocity for q_ in past])
+                objs.append(o)
+        elif case["frame"] == "mixed":   # one frame holding ego-frame and map-frame objects side by side
             objs = [_obj(u, k, "base_link" if (ui + case.get("mix", 0)) % 2 == 0 else "map", False, case) for ui, u in enumerate("ABC") if case["pres"][ui][k]]
         else:
             objs = [_obj(u, k, case["frame"], case["neg"] and k == 1, case) for ui, u in enumerate("ABC") if case["pres"][ui][k]]
